@@ -1,1 +1,393 @@
-//! Verification wrappers for this component (data-only re-exports of crate-private items).
+//! Verification wrappers for the sorted-table component (C13).
+//!
+//! Data-only access to the crate-private `TableWriter` / `Table` /
+//! `TableIterator` / `InternalKey` and to the comparators: everything goes in
+//! and comes out as plain bytes, integers and the small public structs below.
+//! Nothing here changes behaviour; the wrappers call the same constructors and
+//! methods the engine itself calls (`MemTable::flush`, `Snapshot::get`,
+//! `KMergeIterator::new_with_comparator`).
+
+use std::ops::Bound;
+use std::path::Path;
+use std::sync::Arc;
+
+use crate::comparator::{BytewiseComparator, Comparator, InternalKeyComparator, TimestampComparator};
+use crate::sstable::block::BlockHandle;
+use crate::sstable::table::{IndexType, Table, TableIterator, TableWriter};
+use crate::vfs::File;
+use crate::{CompressionType, InternalKey, InternalKeyKind, InternalKeyRange, LSMIterator, Options};
+
+/// The table-format options a table file is written / read with.
+#[derive(Debug, Clone)]
+pub struct SstOptions {
+	pub block_size: usize,
+	pub restart_interval: usize,
+	pub index_partition_size: usize,
+	/// Snappy for every level (otherwise no compression).
+	pub snappy: bool,
+	/// Default bloom filter policy on / no filter policy.
+	pub filter: bool,
+	/// Target level handed to the writer (selects the per-level compression).
+	pub level: u8,
+}
+
+impl SstOptions {
+	fn to_options(&self) -> Arc<Options> {
+		// A fresh `Options` carries a fresh block cache, so tables built with the
+		// same id never see each other's cached blocks.
+		let mut o = Options::default();
+		o.block_size = self.block_size;
+		o.block_restart_interval = self.restart_interval;
+		o.index_partition_size = self.index_partition_size;
+		o.compression_per_level = if self.snappy {
+			vec![CompressionType::SnappyCompression]
+		} else {
+			Vec::new()
+		};
+		if !self.filter {
+			o.filter_policy = None;
+		}
+		Arc::new(o)
+	}
+}
+
+/// An internal key, taken apart.
+#[derive(Debug, Clone, PartialEq, Eq)]
+pub struct SstKey {
+	pub user_key: Vec<u8>,
+	pub seq: u64,
+	/// `InternalKeyKind as u8`
+	pub kind: u8,
+	pub ts: u64,
+}
+
+impl SstKey {
+	fn to_internal(&self) -> InternalKey {
+		InternalKey::new(self.user_key.clone(), self.seq, InternalKeyKind::from(self.kind), self.ts)
+	}
+
+	fn from_internal(k: &InternalKey) -> SstKey {
+		SstKey {
+			user_key: k.user_key.clone(),
+			seq: k.seq_num(),
+			kind: k.trailer as u8,
+			ts: k.timestamp,
+		}
+	}
+
+	fn from_encoded(b: &[u8]) -> SstKey {
+		SstKey::from_internal(&InternalKey::decode(b))
+	}
+}
+
+#[derive(Debug, Clone, PartialEq, Eq)]
+pub struct SstEntry {
+	pub key: SstKey,
+	pub value: Vec<u8>,
+}
+
+/// A user-key range bound.
+#[derive(Debug, Clone, PartialEq, Eq)]
+pub enum SstBound {
+	Unbounded,
+	Included(Vec<u8>),
+	Excluded(Vec<u8>),
+}
+
+fn to_range(lo: &SstBound, hi: &SstBound) -> InternalKeyRange {
+	fn b(x: &SstBound) -> Bound<&[u8]> {
+		match x {
+			SstBound::Unbounded => Bound::Unbounded,
+			SstBound::Included(k) => Bound::Included(k.as_slice()),
+			SstBound::Excluded(k) => Bound::Excluded(k.as_slice()),
+		}
+	}
+	// the engine's own conversion (Snapshot::range / Snapshot::get)
+	crate::user_range_to_internal_range(b(lo), b(hi))
+}
+
+/// What the table's metadata block says about its key and sequence range.
+#[derive(Debug, Clone)]
+pub struct SstMeta {
+	pub smallest_point: Option<SstKey>,
+	pub largest_point: Option<SstKey>,
+	/// `properties.seqnos`
+	pub seqnos: (u64, u64),
+	pub smallest_seq_num: Option<u64>,
+	pub largest_seq_num: Option<u64>,
+	pub num_entries: u64,
+	pub num_data_blocks: u64,
+	pub index_partitions: u64,
+	pub has_filter: bool,
+}
+
+/// One index entry (separator key -> data block) with the keys stored in that block.
+#[derive(Debug, Clone)]
+pub struct SstIndexEntry {
+	pub separator: SstKey,
+	pub block_offset: u64,
+	pub keys: Vec<SstKey>,
+}
+
+/// One index partition: its key in the top-level index and its entries.
+#[derive(Debug, Clone)]
+pub struct SstPartition {
+	pub top_separator: SstKey,
+	pub entries: Vec<SstIndexEntry>,
+}
+
+fn add_all<W: std::io::Write>(mut w: TableWriter<W>, entries: &[SstEntry]) -> Result<u64, String> {
+	for e in entries {
+		w.add(e.key.to_internal(), &e.value).map_err(|e| e.to_string())?;
+	}
+	w.finish().map(|n| n as u64).map_err(|e| e.to_string())
+}
+
+/// Writes `entries` (in the given order) into a table file at `path`, exactly
+/// as a memtable flush does. Returns the file size reported by the writer.
+pub fn sst_build(path: &Path, id: u64, o: &SstOptions, entries: &[SstEntry]) -> Result<u64, String> {
+	let file = std::fs::File::create(path).map_err(|e| e.to_string())?;
+	add_all(TableWriter::new(file, id, o.to_options(), o.level), entries)
+}
+
+/// Same, into memory.
+pub fn sst_build_mem(id: u64, o: &SstOptions, entries: &[SstEntry]) -> Result<Vec<u8>, String> {
+	let mut buf = Vec::new();
+	add_all(TableWriter::new(&mut buf, id, o.to_options(), o.level), entries)?;
+	Ok(buf)
+}
+
+/// An opened table.
+pub struct SstTable {
+	table: Table,
+}
+
+/// Opens the table file at `path` as the engine does after a flush.
+pub fn sst_open(path: &Path, id: u64, o: &SstOptions) -> Result<SstTable, String> {
+	let file = crate::vfs::open_for_sync(path).map_err(|e| e.to_string())?;
+	let file: Arc<dyn File> = Arc::new(file);
+	let size = file.size().map_err(|e| e.to_string())?;
+	Table::new(id, o.to_options(), file, size)
+		.map(|table| SstTable {
+			table,
+		})
+		.map_err(|e| e.to_string())
+}
+
+/// Opens a table held in memory.
+pub fn sst_open_mem(bytes: Vec<u8>, id: u64, o: &SstOptions) -> Result<SstTable, String> {
+	let size = bytes.len() as u64;
+	let file: Arc<dyn File> = Arc::new(bytes);
+	Table::new(id, o.to_options(), file, size)
+		.map(|table| SstTable {
+			table,
+		})
+		.map_err(|e| e.to_string())
+}
+
+impl SstTable {
+	/// `Table::get` with the lookup key `Snapshot::get` builds.
+	pub fn get(&self, user_key: &[u8], seq: u64) -> Result<Option<SstEntry>, String> {
+		let ikey = InternalKey::new(user_key.to_vec(), seq, InternalKeyKind::Set, 0);
+		match self.table.get(&ikey) {
+			Ok(Some((k, v))) => Ok(Some(SstEntry {
+				key: SstKey::from_internal(&k),
+				value: v,
+			})),
+			Ok(None) => Ok(None),
+			Err(e) => Err(e.to_string()),
+		}
+	}
+
+	pub fn is_key_in_key_range(&self, user_key: &[u8], seq: u64) -> bool {
+		let ikey = InternalKey::new(user_key.to_vec(), seq, InternalKeyKind::Set, 0);
+		self.table.is_key_in_key_range(&ikey)
+	}
+
+	pub fn is_before_range(&self, lo: &SstBound, hi: &SstBound) -> bool {
+		self.table.is_before_range(&to_range(lo, hi))
+	}
+
+	pub fn is_after_range(&self, lo: &SstBound, hi: &SstBound) -> bool {
+		self.table.is_after_range(&to_range(lo, hi))
+	}
+
+	pub fn overlaps_with_range(&self, lo: &SstBound, hi: &SstBound) -> bool {
+		self.table.overlaps_with_range(&to_range(lo, hi))
+	}
+
+	pub fn meta(&self) -> SstMeta {
+		let m = &self.table.meta;
+		SstMeta {
+			smallest_point: m.smallest_point.as_ref().map(SstKey::from_internal),
+			largest_point: m.largest_point.as_ref().map(SstKey::from_internal),
+			seqnos: m.properties.seqnos,
+			smallest_seq_num: m.smallest_seq_num,
+			largest_seq_num: m.largest_seq_num,
+			num_entries: m.properties.num_entries,
+			num_data_blocks: m.properties.num_data_blocks,
+			index_partitions: m.properties.index_partitions,
+			has_filter: self.table.filter_reader.is_some(),
+		}
+	}
+
+	/// The physical arrangement: partitions, separators, keys per data block.
+	/// Reads (and therefore caches) every block: use a separate handle if the
+	/// handle under test should stay cold.
+	pub fn layout(&self) -> Result<Vec<SstPartition>, String> {
+		let IndexType::Partitioned(index) = &self.table.index_block;
+		let mut out = Vec::new();
+		for bh in &index.blocks {
+			let pblock = index.load_block(bh).map_err(|e| e.to_string())?;
+			let mut pit = pblock.iter().map_err(|e| e.to_string())?;
+			pit.seek_to_first().map_err(|e| e.to_string())?;
+			let mut entries = Vec::new();
+			while pit.is_valid() {
+				let (handle, _) =
+					BlockHandle::decode(pit.value_bytes()).map_err(|e| e.to_string())?;
+				let dblock = self.table.read_block(&handle).map_err(|e| e.to_string())?;
+				let mut dit = dblock.iter().map_err(|e| e.to_string())?;
+				dit.seek_to_first().map_err(|e| e.to_string())?;
+				let mut keys = Vec::new();
+				while dit.is_valid() {
+					keys.push(SstKey::from_encoded(dit.key_bytes()));
+					if !dit.advance().map_err(|e| e.to_string())? {
+						break;
+					}
+				}
+				entries.push(SstIndexEntry {
+					separator: SstKey::from_encoded(pit.key_bytes()),
+					block_offset: handle.offset() as u64,
+					keys,
+				});
+				if !pit.advance().map_err(|e| e.to_string())? {
+					break;
+				}
+			}
+			out.push(SstPartition {
+				top_separator: SstKey::from_encoded(&bh.separator_key),
+				entries,
+			});
+		}
+		Ok(out)
+	}
+
+	/// A cursor over the table restricted to the user-key range `lo..hi`.
+	/// `custom_comparator` takes the path range scans take
+	/// (`iter_with_comparator` with the internal-key comparator), otherwise the
+	/// path compaction takes (`iter`).
+	pub fn iter(
+		&self,
+		lo: &SstBound,
+		hi: &SstBound,
+		custom_comparator: bool,
+	) -> Result<SstIter<'_>, String> {
+		let range = if *lo == SstBound::Unbounded && *hi == SstBound::Unbounded {
+			None
+		} else {
+			Some(to_range(lo, hi))
+		};
+		let it = if custom_comparator {
+			let cmp: Arc<dyn Comparator> = Arc::clone(&self.table.opts.internal_comparator);
+			self.table.iter_with_comparator(range, cmp)
+		} else {
+			self.table.iter(range)
+		};
+		it.map(|it| SstIter {
+			it,
+		})
+		.map_err(|e| e.to_string())
+	}
+}
+
+/// `TableIterator` cursor operations.
+pub struct SstIter<'a> {
+	it: TableIterator<'a>,
+}
+
+impl SstIter<'_> {
+	pub fn seek(&mut self, target: &SstKey) -> Result<bool, String> {
+		self.it.seek(&target.to_internal().encode()).map_err(|e| e.to_string())
+	}
+
+	pub fn seek_first(&mut self) -> Result<bool, String> {
+		self.it.seek_first().map_err(|e| e.to_string())
+	}
+
+	pub fn seek_last(&mut self) -> Result<bool, String> {
+		self.it.seek_last().map_err(|e| e.to_string())
+	}
+
+	#[allow(clippy::should_implement_trait)]
+	pub fn next(&mut self) -> Result<bool, String> {
+		self.it.next().map_err(|e| e.to_string())
+	}
+
+	pub fn prev(&mut self) -> Result<bool, String> {
+		self.it.prev().map_err(|e| e.to_string())
+	}
+
+	pub fn valid(&self) -> bool {
+		self.it.valid()
+	}
+
+	/// The entry under the cursor (`None` when the cursor is not valid).
+	pub fn entry(&self) -> Result<Option<SstEntry>, String> {
+		if !self.it.valid() {
+			return Ok(None);
+		}
+		let key = SstKey::from_encoded(self.it.key().encoded());
+		let value = self.it.value_encoded().map_err(|e| e.to_string())?.to_vec();
+		Ok(Some(SstEntry {
+			key,
+			value,
+		}))
+	}
+}
+
+// ---- comparators -----------------------------------------------------------
+
+/// `InternalKey::encode`
+pub fn encode_key(k: &SstKey) -> Vec<u8> {
+	k.to_internal().encode()
+}
+
+/// `InternalKey::decode`
+pub fn decode_key(b: &[u8]) -> SstKey {
+	SstKey::from_encoded(b)
+}
+
+pub fn bytewise_separator(a: &[u8], b: &[u8]) -> Vec<u8> {
+	BytewiseComparator {}.separator(a, b)
+}
+
+pub fn bytewise_successor(k: &[u8]) -> Vec<u8> {
+	BytewiseComparator {}.successor(k)
+}
+
+fn cmp_by(timestamp: bool) -> Box<dyn Comparator> {
+	let user: Arc<dyn Comparator> = Arc::new(BytewiseComparator {});
+	if timestamp {
+		Box::new(TimestampComparator::new(user))
+	} else {
+		Box::new(InternalKeyComparator::new(user))
+	}
+}
+
+/// -1 / 0 / 1 under the internal-key comparator (`timestamp = false`) or the
+/// timestamp comparator.
+pub fn internal_compare(timestamp: bool, a: &SstKey, b: &SstKey) -> i8 {
+	match cmp_by(timestamp).compare(&encode_key(a), &encode_key(b)) {
+		std::cmp::Ordering::Less => -1,
+		std::cmp::Ordering::Equal => 0,
+		std::cmp::Ordering::Greater => 1,
+	}
+}
+
+pub fn internal_separator(timestamp: bool, a: &SstKey, b: &SstKey) -> SstKey {
+	decode_key(&cmp_by(timestamp).separator(&encode_key(a), &encode_key(b)))
+}
+
+pub fn internal_successor(timestamp: bool, k: &SstKey) -> SstKey {
+	decode_key(&cmp_by(timestamp).successor(&encode_key(k)))
+}
